@@ -33,6 +33,12 @@ Proof.
   - now apply (out_of_range_not_listed _ _ Hwf).
 Qed.
 
+Theorem pid_exists_fault_h valid h n f :
+  let s := final valid h in
+  (n = 0 -> tbl s <> []) ->
+  snd (step valid s (PidExistsF n f)) = OBool (zmem n (listing (tbl s))).
+Proof. intros s Hne. apply pid_exists_fault_spec; [apply wf_final|exact Hne]. Qed.
+
 (* ---------------------------------------------------------------- what a generator yields *)
 Theorem iter_yields valid h g :
   let gh := snd (irun valid h) g in
@@ -218,6 +224,8 @@ Proof.
     destruct (pids_sorted _) as [[l low]| |]; reflexivity.
   - reflexivity.
   - destruct (Nat.leb _ _); [reflexivity|]. destruct (is_running_obj _ _ _ _) as [[r ob'] ru']. reflexivity.
+  - destruct (n <? 0); [reflexivity|].
+    destruct (n =? 0); [destruct (pids_sorted _) as [[l low]| |]; reflexivity|]. destruct (_ && _); reflexivity.
 Qed.
 
 Theorem pmap_yield valid h g p ob i :
@@ -515,6 +523,7 @@ Proof.
     + pose proof (run_loop_facts valid s g a pm rest) as R. cbn zeta in R. destruct R as [_ [_ [_ [_ [Fg _]]]]]. rewrite Fg. cbn; lia.
   - destruct (Nat.leb (ngen s) g); [cbn; lia|]. destruct (gens s g); cbn; lia.
   - destruct (Nat.leb (nobj s) o); [cbn; lia|]. destruct (is_running_obj _ _ _ _) as [[r ob'] ru']. cbn. lia.
+  - destruct (n <? 0); [cbn; lia|]. destruct (n =? 0); [destruct (pids_sorted _) as [[l low]| |]; cbn; lia|]. destruct (_ && _); cbn; lia.
 Qed.
 
 (* once a generator's body was entered, the ghost's record of that moment never changes *)
